@@ -279,7 +279,7 @@ def run(ctx):
     explore.bfs(spec, ctx, max_depth=30, batch=8)
     if thorough:
         spec2 = Spec(["G1", "GB"], with_cg_default=True)
-        explore.bfs(spec2, ctx, max_depth=30, batch=16)
+        explore.bfs(spec2, ctx, max_depth=30, batch=16, time_cap=900)
     maxlen = 3
     seqs = [list(s) for n in range(maxlen + 1) for s in itertools.product(W_OPS, repeat=n)]
     pairs = [(a, b) for a in seqs for b in seqs]
